@@ -33,18 +33,19 @@ type Flow struct {
 	Blackhole   bool   // the correct server's UDP packets never arrive; the harness idles so that the client switches to TCP
 	Quick       bool   // part of the quick tier
 	Base        string // flow whose conversation is a prefix of this one
+	CredPairs   bool   // pairs of deviations are also enumerated with credentials in the URL
 }
 
 var flows = []*Flow{
-	{Name: "describe", Mode: "describe", Proto: "auto", Quick: true},
-	{Name: "play-tcp", Mode: "play", Proto: "tcp", Quick: true},
-	{Name: "play-udp", Mode: "play", Proto: "udp", Quick: true},
+	{CredPairs: true, Name: "describe", Mode: "describe", Proto: "auto", Quick: true},
+	{CredPairs: true, Name: "play-tcp", Mode: "play", Proto: "tcp", Quick: true},
+	{CredPairs: true, Name: "play-udp", Mode: "play", Proto: "udp", Quick: true},
 	{Name: "play-auto", Mode: "play", Proto: "auto", Quick: false},
 	{Name: "play-auto-461", Mode: "play", Proto: "auto", NoUDP: true, Quick: true},
-	{Name: "play-auto-switch", Mode: "play", Proto: "auto", Blackhole: true, Pause: true, Quick: true, Base: "play-auto"},
+	{CredPairs: true, Name: "play-auto-switch", Mode: "play", Proto: "auto", Blackhole: true, Pause: true, Quick: true, Base: "play-auto"},
 	{Name: "pause-tcp", Mode: "play", Proto: "tcp", Pause: true, Quick: true, Base: "play-tcp"},
 	{Name: "pause-udp", Mode: "play", Proto: "udp", Pause: true, Quick: false, Base: "play-udp"},
-	{Name: "record-tcp", Mode: "record", Proto: "tcp", Pause: true, Quick: true},
+	{CredPairs: true, Name: "record-tcp", Mode: "record", Proto: "tcp", Pause: true, Quick: true},
 	{Name: "record-udp", Mode: "record", Proto: "udp", Quick: false},
 	{Name: "record-auto", Mode: "record", Proto: "auto", Quick: true},
 	{Name: "backchannel-tcp", Mode: "play", Proto: "tcp", BackChannel: true, Quick: false},
